@@ -42,7 +42,7 @@ void valid_case(const LPrt& p, Stats& st) {
 }
 
 void violating_read(LPrt p, unsigned kind, uint64_t a, Stats& st) {
-	const char* what = "";
+	const char* what = ""; const LPrt orig = p;
 	if (p.palettes.empty()) { std::array<std::array<uint8_t, 4>, 256> pal{}; p.palettes.push_back(pal); p.palHeaders.push_back({}); }
 	if (p.images.empty()) p.images.push_back({4, 0, 1, 4, 0, 0});
 	size_t ii = a % p.images.size();
@@ -59,10 +59,13 @@ void violating_read(LPrt p, unsigned kind, uint64_t a, Stats& st) {
 	Out o = guarded([&] { prtgen::read_art(in); });
 	V_CHECK(o == Out::Err, "PRT violating a cross-field rule was accepted: " << what);
 	st.cls(std::string("violating_read:") + what); st.nt(fnv1a(in.data(), std::min<size_t>(in.size(), 4096), kind) ^ 0xB1);
+	// a refused load must leave nothing behind: the intact file is read, written and re-read right afterwards, in the same process and thread
+	if (orig.images.size() <= 100) { valid_case(orig, st); st.cls("valid_round_trip_right_after_a_refused_read"); }
 }
 
 void violating_write(const LPrt& p, unsigned kind, uint64_t a, Stats& st) {
 	ArtFile art = prtgen::read_art(refgfx::encode_prt(p));
+	const ArtFile good = art; const std::vector<uint8_t> goodBytes = prtgen::write_art(good);
 	const char* what = "";
 	if (art.palettes.empty()) art.palettes.resize(1);
 	if (art.imageMetas.empty()) { ImageMeta m{}; m.scanLineByteWidth = 8; m.width = 5; art.imageMetas.push_back(m); }
@@ -88,6 +91,12 @@ void violating_write(const LPrt& p, unsigned kind, uint64_t a, Stats& st) {
 	Stream::DynamicMemoryWriter w;
 	Out o = guarded([&] { art.Write(w); });
 	V_CHECK(o == Out::Err, "ArtFile::Write accepted a structure violating a cross-field rule: " << what);
+	// the refused write must not colour what is written next (same thread, fresh destination): the lawful structure still gives its bytes,
+	// twice in a row, and those bytes still load
+	first_diff(prtgen::write_art(good), goodBytes, "bytes of a lawful structure written right after a refused write vs the same structure written before it");
+	first_diff(prtgen::write_art(good), goodBytes, "second write after a refused write");
+	if ((a & 3) == 0) { Out o2 = guarded([&] { art.Write(w); }); V_CHECK(o2 == Out::Err, "the same violating structure was accepted at the second attempt: " << what); first_diff(prtgen::write_art(good), goodBytes, "write after two refused writes"); }
+	st.cls("valid_write_right_after_a_refused_write");
 	st.cls(std::string("violating_write:") + what); st.nt(hmix(kind % 5, a % 97) ^ 0xB2);
 }
 } // namespace
@@ -98,7 +107,12 @@ void run_case(Tape& t, Stats& st) {
 	if (st.want_sample()) st.sample("{\"mode\":" + std::to_string(mode) + ",\"prt\":" + prtgen::render(p) + "}");
 	if (mode == 0) violating_read(p, unsigned(t.below(6)), t.u16(), st);
 	else if (mode == 1) violating_write(p, unsigned(t.below(5)), t.u16(), st);
-	else valid_case(p, st);
+	else {
+		// one case in four: ANOTHER structure goes through the reader and the writer first (larger or smaller, other flags) - what the library
+		// did before must not show in what it does now
+		if (t.below(4) == 0) { LPrt q = prtgen::gen_lprt(t); if (q.images.size() <= 100) { valid_case(q, st); st.cls("another_structure_processed_first"); } }
+		valid_case(p, st);
+	}
 }
 
 void run_sweep(Stats& st) {
